@@ -348,4 +348,27 @@ def executeOutcome (feedOk : List Generated → Bool) (run : RunResult) (decoded
     (stdout stderr errText stderrNote : Bytes) : Outcome :=
   step feedOk (execute run decoded stdout stderr errText stderrNote)
 
+/-! ## which plugins a `Generate` call runs (generator.go: preparePlugins + the plugin loop)
+
+`sdk.InvokeThriftgo` calls `Generate` once per `-g` on one package-level `Generator`; `g.plugins`
+survives between the calls. -/
+
+/-- `preparePlugins`: `g.plugins` after the call, from its value before and this call's descriptions.
+`reset` = the list is emptied first (`g.plugins = g.plugins[:0]`; before that repair it was not). -/
+def preparePlugins {δ : Type} (reset : Bool) (old descs : List δ) : List δ :=
+  (if reset then [] else old) ++ descs
+
+/-- `for i, p := range g.plugins { … out.UsedPlugins[i] … }`: which description's parameters plugin
+`i` gets; `none` = index out of range (a Go panic) -/
+def pluginLoop {δ : Type} : List δ → List δ → Nat → List (δ × Option δ)
+  | [], _, _ => []
+  | p :: ps, descs, i => (p, descs[i]?) :: pluginLoop ps descs (i + 1)
+
+/-- `n` successive `Generate` calls with the same `-p` list, starting from `g.plugins = st` -/
+def generateCalls {δ : Type} (reset : Bool) (descs : List δ) : Nat → List δ → List (List (δ × Option δ))
+  | 0, _ => []
+  | n + 1, st =>
+    let pl := preparePlugins reset st descs
+    pluginLoop pl descs 0 :: generateCalls reset descs n pl
+
 end Plugin
